@@ -277,7 +277,7 @@ func runC17(p *Program, r *Result) {
 // EncodeIdentity/EncodeRecipient a non-empty string, only for a name that
 // passed validPluginName (shared by C09 R09.6 and C17 R17.3).
 func checkPluginNameValidated(p *Program, r *Result) {
-		// ParseRecipient / ParseIdentity / EncodeIdentity / EncodeRecipient return success only under validPluginName
+	// ParseRecipient / ParseIdentity / EncodeIdentity / EncodeRecipient return success only under validPluginName
 	for _, fnName := range []string{"ParseRecipient", "ParseIdentity"} {
 		fn := r.anchor(pkgPlugin, "", fnName)
 		if fn == nil {
@@ -316,4 +316,4 @@ func checkPluginNameValidated(p *Program, r *Result) {
 		}
 		r.Check(okAll, fn.String(), "nonempty:validated", "", "a non-empty encoding is returned only for a valid name", "a non-empty encoding can be returned for a name that was not validated")
 	}
-	}
+}
